@@ -96,7 +96,8 @@ fn map_family<const C: usize>(cx: &mut Ctx) -> u64 {
             // each operation from a freshly built state
             for &k in &keys_of_interest {
                 macro_rules! case {
-                    ($name:expr, $pm:expr, |$m:ident, $md:ident| $body:block) => {{
+                    ($name:expr, $pm:expr, |$m:ident, $md:ident| $body:block) => {if (($pm) | C03 | C05) & cx.enabled != 0 {
+                        // (a case is executed only for the properties whose statements cover its operation)
                         cx.here.op = format!("{} (key {k})", $name);
                         cx.evaluations += 1;
                         cx.nontrivial += 1;
@@ -174,7 +175,7 @@ fn map_family<const C: usize>(cx: &mut Ctx) -> u64 {
                 });
             }
             macro_rules! whole {
-                ($name:expr, $pm:expr, |$m:ident, $md:ident| $body:block) => {{
+                ($name:expr, $pm:expr, |$m:ident, $md:ident| $body:block) => {if (($pm) | C05) & cx.enabled != 0 {
                     cx.here.op = $name.to_string();
                     cx.evaluations += 1;
                     cx.nontrivial += 1;
@@ -350,10 +351,10 @@ fn run_cap<const C: usize, const D: usize>(rep: &mut EngineReport) {
     let t0 = std::time::Instant::now();
     let mut cx = rep.cx.fork();
     cx.here.config = format!("capacity boundary family: Map<u16,u16,{C}> / Set<u16,{C}>, pairs with capacity {D}");
-    let a = map_family::<C>(&mut cx);
-    let b = set_family::<C>(&mut cx);
-    let c = pair_family::<C, C>(&mut cx);
-    let d = pair_family::<C, D>(&mut cx);
+    let en = cx.enabled;
+    let a = if en & (C01 | C03 | C05 | C09 | C10 | C11 | C13 | C15 | C16 | C19) != 0 { map_family::<C>(&mut cx) } else { 0 };
+    let b = if en & (C07 | C03 | C05) != 0 { set_family::<C>(&mut cx) } else { 0 };
+    let (c, d) = if en & (C14 | C08) != 0 { (pair_family::<C, C>(&mut cx), pair_family::<C, D>(&mut cx)) } else { (0, 0) };
     cx.sample(|| J::obj().set("capacity", C).set("fill_levels", format!("{:?}", fills(C))).set("orders", "ascending, descending, shuffled by swap-removes"));
     rep.configs.push(
         J::obj()
